@@ -31,7 +31,7 @@ def cases(ctx, plan):
     k = 0
     if plan.get("small_n"):
         pals = [G.PALETTE3, G.PALETTE3B] if plan.get("two_palettes") else [G.PALETTE3]
-        for mol in common.small_exhaustive(ctx, plan["small_n"], pals):
+        for mol in common.small_exhaustive(ctx, plan["small_n"], pals, extra=plan.get("extra", ())):
             if plan.get("small_sample") and len(mol.atoms) == plan["small_n"] and ctx.rng.random() > plan["small_sample"]:
                 continue
             yield {"kind": "mol", "mol": mol.to_json(), "cls": "M1", "name": mol.name, "vseed": f"{ctx.seed}/{mol.name}"}
